@@ -152,6 +152,17 @@ func runC17(ctx *Ctx, c c17Case) {
 	r2 := RunWorkflow(d, RunOpts{Dir: rr.Dir, Timeout: 8e9})
 	ctx.Res.Count("rerun")
 	if r2.Exit == -2 && c.Multi == "os+o" {
+		// confirm on two more attempts (after the usual cleanup) that it was not the machine
+		for k := 0; k < 2; k++ {
+			removeLeftovers(rr.Dir)
+			if again := RunWorkflow(d, RunOpts{Dir: rr.Dir, Timeout: 8e9}); again.Exit != -2 {
+				ctx.Res.Count("rerun-timeout-not-repeated")
+				r2 = again
+				break
+			}
+		}
+	}
+	if r2.Exit == -2 && c.Multi == "os+o" {
 		// not F10: this producer has an ordinary output as well, which exists, so it has to be skipped like its consumers
 		ctx.Res.Violate(Violation{What: "re-running the completed workflow does not terminate although the producer's ordinary output exists: the producer was executed again while its consumer was skipped", Class: "c17.rerun-hangs-mixed", Witness: c})
 		return
